@@ -247,7 +247,7 @@ def apply(data: bytes, spec: dict) -> bytes:
             if spec["how"] == "run":
                 inner = cborr.enc([32, inner])  # run-sequence: bstr-wrapped sequence
             else:
-                inner = cborr.enc([15, cborr.enc([inner])])  # try-each: bstr [ bstr seq ]
+                inner = cborr.enc([15, [inner]])  # try-each: [ bstr seq ]
             inner = bytes(inner)
         return replace_node(t, spec["path"], cborr.enc(inner))
     raise ValueError(f"unknown rot kind {k}")
